@@ -256,12 +256,37 @@ def scenario_class(r, verdict, step):
                 opened -= 1
             elif e["e"] == "loop":
                 tops.append((e["nr"] == wc and opened == wc, bool(e["st"]["futures"])))
-        window = tops[-(r["cfg"]["K"] + 1):-1] if verdict == "ServedIfThreadFree" else tops[-4:]
+        if verdict != "ServedIfThreadFree":
+            window = tops[-4:]
+        elif upto[-1]["e"] == "close":
+            window = tops[-1:]
+        else:
+            window = tops[-(r["cfg"]["K"] + 1):-1]
         if window and all(full for full, _ in window):
             return "gate-full-pool-busy" if any(b for _, b in window) else "gate-full-pool-empty"
+    if verdict == "AllClosedAtEnd" and upto[-1]["e"] == "exit":
+        return "left-open-after-stop"
     # otherwise: name the worker path that acted last on a connection before the failing point
     last = None
+    if verdict == "Accounting":
+        # root event: the first event after the last point at which nr_conns was exact
+        opened, root = 0, None
+        for e in upto:
+            if e["e"] == "accept":
+                opened += 1
+            elif e["e"] == "close":
+                opened -= 1
+            if e["nr"] == opened:
+                root = None
+            elif root is None:
+                root = e
+        if root is not None and root["e"] in ("close", "reclose", "accept", "cancel", "jobend", "finish"):
+            last = root
+            if last["e"] == "finish":
+                return "at-finish"
     for e in reversed(upto):
+        if last is not None:
+            break
         if e["e"] in ("close", "reclose", "accept", "cancel", "jobend", "reg"):
             last = e
             break
